@@ -170,7 +170,15 @@ pub fn prop_hot(c: &HotCase) -> CaseResult {
     let mut failure: Option<Violation> = None;
     let mut last_count = 0u64;
     let mut passes_with_traffic = 0u32;
+    let loop_start = std::time::Instant::now();
+    let mut passes_done = 0u32;
     for pass in 0..c.passes {
+        // on a starved machine every paced pass costs a trip through the scheduler: the case ends
+        // after 8 s with the passes it has made (at least 200, otherwise it is undecided)
+        if loop_start.elapsed() > std::time::Duration::from_secs(8) {
+            break;
+        }
+        passes_done += 1;
         // pace the passes by the workers' progress, so that every pass runs among announces
         // whatever the machine's load (a starved machine makes the case slower, not emptier)
         let t0 = std::time::Instant::now();
@@ -223,7 +231,13 @@ pub fn prop_hot(c: &HotCase) -> CaseResult {
     if let Some(m) = bad_reply.lock().unwrap().take() {
         vfail!("reply-differs-under-load", "{}", m);
     }
-    if passes_with_traffic * 2 >= c.passes {
+    if passes_done < c.passes.min(200) {
+        return Err(Violation::new("inconclusive-too-slow", format!("only {passes_done} cleaning passes in 8 s")));
+    }
+    if passes_done < c.passes {
+        out.label("pass-budget-cut-by-time");
+    }
+    if passes_with_traffic * 2 >= passes_done {
         out.nontrivial = true;
         out.label("passes-overlapped-by-announces");
     }
@@ -245,7 +259,7 @@ pub fn cases(seed: u64, tier: Tier) -> Vec<HotCase> {
             torrents: 1 + next(4) as u8,
             peers_per_torrent: [1u8, 2, 3, 5, 12][next(5) as usize],
             seeder_every: next(4) as u8,
-            passes: tier.pick(20_000, 100_000),
+            passes: tier.pick(3000, 20_000),
             family: next(3) as u8,
             export: i % 3 == 0,
         });
